@@ -1,6 +1,140 @@
 import CkbVerif.Driver.Util
+import CkbVerif.Driver.C15
+import CkbVerif.Model.Compact
+import CkbVerif.Model.Frame
+
+/-! Line-protocol driver for C16 (protocols: harness/hcore/src/c16.rs, harness/hnode/src/c16.rs).
+
+Stream `wire`:
+  ver <Type> <s|c> <hex>     -> ok | err
+  gate <sync|relay> <hex>    -> strict <id> | compat <id> | too-many-fields | malformed
+Stream `cb`:
+  recon root=<ids|bad> ph=<ok|bad> eh=<ok|bad> sids=<ids> pre=<i:t;…> recv=<ids> uncles=<n> upeer=<idx list> ext=<0|1> props=<n>
+       -> verify-err <kind> | block txs=<ids> hdr=<same|reset> | missing txs=<idx> uncles=<idx> | collided | unmatched
+     (transaction `t` has short id `t`; the pool is empty; uncles not supplied by the peer are unknown to the chain)
+Stream `frame`:
+  dec <hex>                  -> err | raw <len> | snappy <len>
+  cmp <len>                  -> raw | snappy
+-/
 namespace CkbVerif.Driver.C16
-def main (_args : List String) : IO UInt32 := do
-  IO.eprintln "C16: model driver not implemented"
-  return 2
+open CkbVerif.Driver CkbVerif.Molecule CkbVerif.Compact
+
+def gateLine : Gate → String
+  | .strict id => s!"strict {id}"
+  | .compat id => s!"compat {id}"
+  | .tooManyFields => "too-many-fields"
+  | .malformed => "malformed"
+
+def stepWire (ts : List String) : String :=
+  match ts with
+  | ["ver", t, m, hx] =>
+    match C15.lookup t, C15.modeOf m, C15.unhex hx with
+    | some s, some c, some bs => if verify c s bs then "ok" else "err"
+    | _, _, _ => "bad-op"
+  | ["gate", which, hx] =>
+    match C15.unhex hx with
+    | some bs =>
+      if which = "sync" then gateLine (gateSync bs)
+      else if which = "relay" then gateLine (gateRelay bs)
+      else "bad-op"
+    | none => "bad-op"
+  | _ => "bad-op"
+
+/-- `key=value` → value -/
+def field (ts : List String) (key : String) : Option String :=
+  ts.findSome? fun t =>
+    match t.splitOn "=" with
+    | [k, v] => if k = key then some v else none
+    | _ => none
+
+def parsePairs (s : String) : Option (List (Nat × Nat)) :=
+  if s = "-" then some [] else
+  (s.splitOn ";").mapM fun p =>
+    match p.splitOn ":" with
+    | [a, b] =>
+      match parseNat? a, parseNat? b with
+      | some a, some b => some (a, b)
+      | _, _ => none
+    | _ => none
+
+/-- injective on the small id lists the harness uses (ids < 9999) -/
+def encList (l : List Nat) : Nat := l.foldl (fun acc x => acc * 10000 + x + 1) 1
+
+def hashes : Hashes :=
+  { root := fun txs => encList (txs.map (·.id))
+    phash := fun ps => encList ps
+    ehash := fun us ext => encList us * 2 + (match ext with | some _ => 1 | none => 0) }
+
+def errLine : CbErr → String
+  | .noCellbase => "no-cellbase"
+  | .outOfIndex => "out-of-index"
+  | .outOfOrder => "out-of-order"
+  | .dupShortIds => "dup-short-ids"
+  | .dupPrefilled => "dup-prefilled"
+
+def stepCb (ts : List String) : String :=
+  match ts with
+  | "recon" :: rest =>
+    let r : Option (CB × List Tx × List Nat) := do
+      let root ← field rest "root"
+      let ph ← field rest "ph"
+      let eh ← field rest "eh"
+      let sids ← (field rest "sids").bind parseNatList?
+      let pre ← (field rest "pre").bind parsePairs
+      let recv ← (field rest "recv").bind parseNatList?
+      let nu ← (field rest "uncles").bind parseNat?
+      let upeer ← (field rest "upeer").bind parseNatList?
+      let ext ← (field rest "ext").bind parseNat?
+      let np ← (field rest "props").bind parseNat?
+      let mk (i : Nat) : Tx := { id := i, sid := i }
+      let uncles := (List.range nu).map (· + 500)
+      let props := (List.range np).map (· + 700)
+      let extension := if ext = 1 then some 1 else none
+      let rootv ← (if root = "bad" then some 0 else (parseNatList? root).map (fun (l : List Nat) => hashes.root (l.map mk)))
+      let hd : Header :=
+        { txRoot := rootv
+          proposalsHash := if ph = "ok" then hashes.phash props else 0
+          extraHash := if eh = "ok" then hashes.ehash uncles extension else 0
+          other := 42 }
+      let cb : CB :=
+        { header := hd, shortIds := sids, prefilled := pre.map (fun (p : Nat × Nat) => (p.1, mk p.2)), uncles := uncles,
+          proposals := props, extension := extension }
+      pure (cb, recv.map mk, upeer)
+    match r with
+    | none => "bad-op"
+    | some (cb, recv, upeer) =>
+      match cbVerify cb with
+      | some e => "verify-err " ++ errLine e
+      | none =>
+        match reconstruct hashes cb recv (fun _ => none) (fun _ => .missing) upeer with
+        | .block b =>
+          s!"block txs={showNatList (b.txs.map (fun (t : Tx) => t.id))} hdr={if b.header = cb.header then "same" else "reset"}"
+        | .missing txs us => s!"missing txs={showNatList txs} uncles={showNatList us}"
+        | .collided => "collided"
+        | .unmatched => "unmatched"
+        | .invalidUncle => "invalid-uncle"
+  | _ => "bad-op"
+
+def stepFrame (ts : List String) : String :=
+  match ts with
+  | ["dec", hx] =>
+    match C15.unhex hx with
+    | some bs =>
+      match CkbVerif.Frame.decompressDecision bs with
+      | .err => "err"
+      | .raw p => s!"raw {p.length}"
+      | .snappy n => s!"snappy {n}"
+    | none => "bad-op"
+  | ["cmp", n] =>
+    match parseNat? n with
+    | some n => if CkbVerif.Frame.compressTaken n then "snappy" else "raw"
+    | none => "bad-op"
+  | _ => "bad-op"
+
+def main (args : List String) : IO UInt32 :=
+  match args with
+  | ["cb"] => runLines () (fun _ ts => ((), stepCb ts))
+  | ["frame"] => runLines () (fun _ ts => ((), stepFrame ts))
+  | _ => runLines () (fun _ ts => ((), stepWire ts))
+
 end CkbVerif.Driver.C16
